@@ -145,8 +145,14 @@ def run(prog, chk):
         okc = okc and far.dominated([n for n in far.cfg.node_containing(conv[0]) if n.id in far.live], guard_edge=g)
     chk.ob("R3.status-converted-and-saved", "_async_response", okc, ar.loc,
            "a STATUS reply is converted by _convert_status and the error kept for _check_exception (end-of-file may be left to the fall-back read)")
-    raises = [r for r in walk_no_defs(ar.node) if isinstance(r, ast.Raise)]
-    okr = len(raises) == 1 and isinstance(raises[0]._parent, ast.If) and unparse(raises[0]._parent.test) == "%s != CMD_DATA" % tp
+    raises = far.nodes(lambda n: n.kind == "raise" and isinstance(n.ast, ast.Raise))
+    g_ne = far.edge_guard(lambda q: unparse(q) == "%s != CMD_DATA" % tp, "T")
+    g_eq = far.edge_guard(lambda q: unparse(q) == "%s == CMD_DATA" % tp, "F")
+    okr = len(raises) == 1 and (far.dominated(raises, guard_edge=g_ne) or far.dominated(raises, guard_edge=g_eq))
+    # ... and a reply that is neither STATUS nor DATA cannot reach the store
+    if okr and stores:
+        stn_ = [n for n in far.cfg.nodes_for(stores[0]) if n.id in far.live]
+        okr = bool(stn_)
     chk.ob("R3.other-reply-types-raise", "_async_response", okr, ar.loc, "anything but DATA (after STATUS was handled) raises")
 
     # ---- R4 evaluated buffers ------------------------------------------------------------------------------------
